@@ -100,12 +100,13 @@ const BASE_MS: i64 = 1_700_000_000_000;
 /// a run normally takes milliseconds; after two runs that hit the limit (a hang caused by the code
 /// under test) the remaining runs get a short limit so that the check still ends in minutes
 static TIMEOUTS: AtomicI64 = AtomicI64::new(0);
-fn run_timeout() -> Duration {
-    if TIMEOUTS.load(Ordering::SeqCst) >= 2 {
-        Duration::from_secs(2)
-    } else {
-        Duration::from_secs(30)
-    }
+fn run_timeout(sc: &Scenario) -> Duration {
+    Duration::from_millis(sc.slow_ms)
+        + if TIMEOUTS.load(Ordering::SeqCst) >= 2 {
+            Duration::from_secs(2)
+        } else {
+            Duration::from_secs(30)
+        }
 }
 
 // ---------------------------------------------------------------------------------------------
@@ -621,6 +622,33 @@ impl OnTradingDisabled<HistoricalClock, State, MultiExchangeTxMap, Risk> for Str
 // Paced market data: MarketDataInMemory::stream() handed out one event at a time
 // ---------------------------------------------------------------------------------------------
 
+/// A user-style market data source that replays at a pace: `MarketDataInMemory::stream()` with a
+/// real-time sleep before every event, `total` in all. Nothing in a backtest may cut it short.
+#[derive(Debug, Clone)]
+struct SlowMarketData {
+    inner: MarketDataInMemory<DataKind>,
+    len: usize,
+    total: Duration,
+}
+
+impl BacktestMarketData for SlowMarketData {
+    type Kind = DataKind;
+
+    async fn time_first_event(&self) -> Result<DateTime<Utc>, BarterError> {
+        self.inner.time_first_event().await
+    }
+
+    async fn stream(&self) -> Result<impl Stream<Item = MEvent> + Send + 'static, BarterError> {
+        let inner = Box::pin(self.inner.stream().await?);
+        let gap = self.total / self.len.max(1) as u32;
+        Ok(futures::stream::unfold(inner, move |mut inner| async move {
+            let next = inner.next().await?;
+            tokio::time::sleep(gap).await;
+            Some((next, inner))
+        }))
+    }
+}
+
 #[derive(Debug, Clone)]
 struct PacedMarketData {
     inner: MarketDataInMemory<DataKind>,
@@ -692,6 +720,10 @@ struct Scenario {
     events: Vec<EvSpec>,
     params: Vec<Params>,
     workers: Vec<usize>,
+    /// slow source: a user-style `BacktestMarketData` whose stream takes this many milliseconds
+    /// of wall-clock (real tokio time) to deliver the dataset, evenly spread over the events
+    /// (plain feed only; 0 = MarketDataInMemory as is)
+    slow_ms: u64,
     /// how the backtest ids are formed: 0 "bt<n>", 1 "<n>" (decimal, not padded: "10" < "2"
     /// lexicographically), 2 reverse-sorted, 3 neither sorted nor reverse-sorted, 4 all equal,
     /// 5 twins (2k and 2k+1 share id and parameters)
@@ -771,6 +803,7 @@ impl Scenario {
             "params": self.params.iter().map(|p| p.to_json()).collect::<Vec<_>>(),
             "workers": self.workers,
             "ids": self.ids,
+            "slow_ms": self.slow_ms,
         })
     }
     fn from_json(v: &Value) -> Scenario {
@@ -791,6 +824,7 @@ impl Scenario {
                 .map(|a| a.iter().map(|x| x.as_u64().unwrap_or(1).max(1) as usize).collect())
                 .unwrap_or_default(),
             ids: v["ids"].as_u64().unwrap_or(0) as u8,
+            slow_ms: v["slow_ms"].as_u64().unwrap_or(0).min(120_000),
         }
     }
     /// id scheme 5: backtests 2k and 2k+1 are twins (same id, parameters, risk-free rate)
@@ -1354,13 +1388,14 @@ where
             .expect("runtime")
     };
     let (dyns, sinks): (Vec<_>, Vec<_>) = bts.iter().map(|&bt| make_dynamic(sc, prep, bt)).unzip();
+    let limit = run_timeout(sc);
     let args = Arc::clone(&prep.args);
     let mut out = vec![];
     if workers == 0 || workers == 1000 {
         let bt = bts[0];
         let d = dyns.into_iter().next().unwrap();
         let res = rt.block_on(async move {
-            tokio::time::timeout(run_timeout(), AssertUnwindSafe(backtest(args, d)).catch_unwind()).await
+            tokio::time::timeout(limit, AssertUnwindSafe(backtest(args, d)).catch_unwind()).await
         });
         let (outcome, note, sum) = match res {
             Err(_) => {
@@ -1376,7 +1411,7 @@ where
         out.push(observe(sc, bt, workers, outcome, note, sum.as_ref(), &sinks[0]));
     } else {
         let res = rt.block_on(async move {
-            tokio::time::timeout(run_timeout(), AssertUnwindSafe(run_backtests(args, dyns)).catch_unwind()).await
+            tokio::time::timeout(limit, AssertUnwindSafe(run_backtests(args, dyns)).catch_unwind()).await
         });
         let (outcome, note, multi) = match res {
             Err(_) => {
@@ -1479,6 +1514,13 @@ fn run_scenario(sc: &Scenario) -> (Vec<String>, Vec<RunObs>, bool) {
     let md = MarketDataInMemory::new(Arc::clone(&shared));
     let runs = if sc.paced {
         run_all(sc, &prepare(&b, PacedMarketData { inner: md }, first))
+    } else if sc.slow_ms > 0 {
+        let slow = SlowMarketData {
+            inner: md,
+            len: sc.events.len(),
+            total: Duration::from_millis(sc.slow_ms),
+        };
+        run_all(sc, &prepare(&b, slow, first))
     } else {
         run_all(sc, &prepare(&b, md, first))
     };
@@ -1620,6 +1662,9 @@ fn render(sc: &Scenario, keys: &[String], runs: &[RunObs], intact: bool) -> (Str
     tag(&format!("backtests_{}", sc.params.len()));
     tag(&format!("id_scheme_{}", sc.ids));
     tag(&format!("topology_{}", sc.topo));
+    if sc.slow_ms > 0 {
+        tag(&format!("slow_source_{}ms", sc.slow_ms));
+    }
     if !intact {
         tag("shared_dataset_modified");
     }
@@ -1665,7 +1710,12 @@ fn emit(em: &mut Emitter, stream: &'static str, sc: &Scenario) {
         // the code under test hangs: enough failing cases have been produced
         return;
     }
-    let (keys, runs, intact) = match catch(AssertUnwindSafe(|| run_scenario(sc))) {
+    let computed = compute(sc);
+    emit_computed(em, stream, sc, computed);
+}
+
+fn compute(sc: &Scenario) -> (Vec<String>, Vec<RunObs>, bool) {
+    match catch(AssertUnwindSafe(|| run_scenario(sc))) {
         Ok(x) => x,
         Err(msg) => {
             // a panic outside the backtest futures (building the inputs, the runtime): report it
@@ -1691,7 +1741,11 @@ fn emit(em: &mut Emitter, stream: &'static str, sc: &Scenario) {
             };
             (keys, vec![run], true)
         }
-    };
+    }
+}
+
+fn emit_computed(em: &mut Emitter, stream: &'static str, sc: &Scenario, computed: (Vec<String>, Vec<RunObs>, bool)) {
+    let (keys, runs, intact) = computed;
     if runs.iter().any(|r| r.connectivity_errors > 0) {
         // even the repeated runs hit the execution manager's request timeout: the machine is
         // too loaded for this scenario to say anything; it is not judged
@@ -1842,6 +1896,7 @@ fn gen_scenario(r: &mut Rng, paced: bool, max_ev: usize, max_bt: usize, adversar
         params,
         workers: if r.chance(1, 3) { vec![1000, 99, 2, 8] } else { vec![1, 2, 8] },
         ids: *r.pick(&[0u8, 0, 1, 1, 2, 3, 4, 5]),
+        slow_ms: 0,
     }
 }
 
@@ -1889,6 +1944,7 @@ fn gen_burst(r: &mut Rng, i: usize) -> Scenario {
         params,
         workers: vec![1000, 99, *r.pick(&[1usize, 2]), 8],
         ids: *r.pick(&[0u8, 1, 2]),
+        slow_ms: 0,
     }
 }
 
@@ -1916,6 +1972,7 @@ fn gen_big_batch(r: &mut Rng, paced: bool, ids: u8) -> Scenario {
         params,
         workers: vec![*r.pick(&[1usize, 2]), 8],
         ids,
+        slow_ms: 0,
     }
 }
 
@@ -1957,12 +2014,48 @@ fn gen_fatal(r: &mut Rng, max_ev: usize) -> Scenario {
         params,
         workers: vec![],
         ids: 0,
+        slow_ms: 0,
     }
 }
 
 /// exhaustive small domain: every dataset length 1..=4 over {trade on instrument 0, trade on
 /// instrument 1, L1, reconnecting} compositions chosen by position pattern, both feed modes, one
 /// and two backtests, and the fatal tick at every position
+/// slow sources: the dataset takes `ms` of wall-clock to arrive. Whatever `backtest()` does while
+/// waiting for the market stream to end, it must not give up on it.
+fn slow_scenarios(thorough: bool) -> Vec<Scenario> {
+    let mk = |ms: u64, n: usize, nbt: usize, workers: Vec<usize>| Scenario {
+        paced: false,
+        topo: 0,
+        latency_ms: 0,
+        fee_bp: 10,
+        quote_balance: 1_000_000,
+        base_balance: 1_000,
+        events: (0..n)
+            .map(|i| EvSpec::Trade {
+                inst: i % 2,
+                t: 3_600_000 * (i as i64 + 1),
+                ns: 0,
+                px4: 400 + 4 * i as i64,
+                am4: 4,
+                buy: true,
+            })
+            .collect(),
+        params: (0..nbt)
+            .map(|i| Params { k: 1 + i as u64, m: 3 + i as u64, max_units: 2, lot_milli: 1000, burst: 1, fatal: None })
+            .collect(),
+        workers,
+        ids: 1,
+        slow_ms: ms,
+    };
+    let mut v = vec![mk(6_500, 6, 2, vec![2])];
+    if thorough {
+        v.push(mk(12_000, 8, 1, vec![2]));
+        v.push(mk(35_000, 7, 1, vec![]));
+    }
+    v
+}
+
 /// dataset lengths at and around typical batch / buffer / power-of-two boundaries: cheap
 /// trade-only datasets, plain feed, one backtest run alone (the schedule independent fact
 /// "market events processed == dataset, in order, each once" is what is at stake), plus
@@ -1993,6 +2086,7 @@ fn boundary_lengths(em: &mut Emitter, thorough: bool) {
             .collect(),
         workers,
         ids: 1,
+        slow_ms: 0,
     };
     let mut lens = vec![15usize, 16, 17, 31, 32, 63, 64, 65, 127, 128, 129, 192, 255, 256, 257];
     if thorough {
@@ -2049,6 +2143,7 @@ fn table(em: &mut Emitter) {
             .collect(),
         workers: vec![1, 2],
         ids: 0,
+        slow_ms: 0,
     };
     let patterns: Vec<Vec<u8>> = vec![
         vec![0],
@@ -2189,6 +2284,15 @@ fn main() {
             let n_burst = if thorough { 80 } else { 24 };
             let (n_paced, n_plain, n_adv, n_fatal, max_ev, max_bt) =
                 if thorough { (160, 60, 80, 40, 60, 32) } else { (60, 20, 30, 12, 24, 8) };
+            // the slow-source cases run on their own threads while the other cases are produced
+            // (their runs wait on real-time sleeps) and are emitted last
+            let slow: Vec<_> = slow_scenarios(thorough)
+                .into_iter()
+                .map(|sc| {
+                    let sc2 = sc.clone();
+                    (sc, std::thread::spawn(move || compute(&sc2)))
+                })
+                .collect();
             table(&mut em);
             boundary_lengths(&mut em, thorough);
             for _ in 0..n_paced {
@@ -2215,15 +2319,55 @@ fn main() {
                 let sc = gen_fatal(&mut r, max_ev);
                 emit(&mut em, "adversarial", &sc);
             }
+            for (sc, handle) in slow {
+                match handle.join() {
+                    Ok(computed) => emit_computed(&mut em, "table", &sc, computed),
+                    Err(_) => emit(&mut em, "table", &sc),
+                }
+            }
         }
         "exec" => {
-            for (inp, stream) in read_inputs(args.input.as_deref().expect("--in")) {
-                let sc = Scenario::from_json(&inp);
+            let inputs = read_inputs(args.input.as_deref().expect("--in"));
+            // slow-source inputs spend their time in real-time sleeps: run them side by side
+            // (32 at a time) before the others, emit everything in input order
+            let mut pre: HashMap<usize, (Vec<String>, Vec<RunObs>, bool)> = HashMap::new();
+            let slow_idx: Vec<usize> = inputs
+                .iter()
+                .enumerate()
+                .filter(|(_, (inp, _))| {
+                    let sc = Scenario::from_json(inp);
+                    sc.slow_ms > 0
+                        && !sc.paced
+                        && !sc.params.is_empty()
+                        && sc.events.iter().any(|e| !matches!(e, EvSpec::Reconnecting { .. }))
+                })
+                .map(|(i, _)| i)
+                .collect();
+            for chunk in slow_idx.chunks(32) {
+                let handles: Vec<_> = chunk
+                    .iter()
+                    .map(|&i| {
+                        let sc = Scenario::from_json(&inputs[i].0);
+                        (i, std::thread::spawn(move || compute(&sc)))
+                    })
+                    .collect();
+                for (i, h) in handles {
+                    if let Ok(c) = h.join() {
+                        pre.insert(i, c);
+                    }
+                }
+            }
+            for (idx, (inp, stream)) in inputs.iter().enumerate() {
+                let sc = Scenario::from_json(inp);
+                if let Some(c) = pre.remove(&idx) {
+                    emit_computed(&mut em, stream_static(stream), &sc, c);
+                    continue;
+                }
                 if !sc.events.iter().any(|e| !matches!(e, EvSpec::Reconnecting { .. })) || sc.params.is_empty() {
                     // MarketDataInMemory cannot be constructed without a market item: outside
                     // the input requirement, emit a case that is not judged
                     em.emit(Case {
-                        stream: stream_static(&stream),
+                        stream: stream_static(stream),
                         input: inp.clone(),
                         coq: "(mkCase false None [] true 0%N [])".to_string(),
                         nontrivial: false,
@@ -2231,7 +2375,7 @@ fn main() {
                     });
                     continue;
                 }
-                emit(&mut em, stream_static(&stream), &sc);
+                emit(&mut em, stream_static(stream), &sc);
             }
         }
         m => panic!("unknown mode {m}"),
